@@ -147,6 +147,100 @@ theorem copyK_never_panics (T : Tables) (sh : Shape) (ty : Nat) :
     exact copyK_never_panics T sh ty ks (i + 1) h.2
 end
 
+/-! ### a value that is well-typed against the schema consists of handled types only -/
+
+/-- a position whose legal node values have a `Copy` case -/
+def posOK (T : Tables) (k : Kind) (sty : Nat) : Prop :=
+  k = .iface ∨ k = .value ∨ k = .opaque ∨ (T.decl sty).copyCase = true
+
+theorem decl_mem_of_copyCase (T : Tables) (ty : Nat) (h : (T.decl ty).copyCase = true) : T.decl ty ∈ T.types := by
+  rcases decl_mem_or_dflt T ty with hm | hd
+  · exact hm
+  · rw [hd] at h; cases h
+
+theorem kidKind_posOK (T : Tables) (hT : typesHandled T = true) (sh : Shape) (ty : Nat) (hm : T.decl ty ∈ T.types)
+    (i : Nat) : posOK T (T.kidKind sh ty i).1 (T.kidKind sh ty i).2 := by
+  have hd := (List.all_eq_true.1 hT) _ hm
+  simp only [Bool.and_eq_true, Bool.or_eq_true, beq_iff_eq] at hd
+  unfold Tables.kidKind posOK
+  cases sh with
+  | obj =>
+    simp only
+    unfold Tables.field
+    rw [List.getD_eq_getElem?_getD]
+    cases hf : (T.decl ty).fields[i]? with
+    | none => right; left; rfl
+    | some f =>
+      have := (List.all_eq_true.1 hd.1.2) f (List.mem_of_getElem? hf)
+      simp only [Bool.or_eq_true, beq_iff_eq] at this
+      simp only [Option.getD_some]
+      rcases this with ((h | h) | h) | h
+      · right; left; exact h
+      · right; right; left; exact h
+      · left; exact h
+      · right; right; right; exact h
+  | list =>
+    simp only
+    rcases hd.2 with ((h | h) | h) | h
+    · right; left; exact h
+    · right; right; left; exact h
+    · left; exact h
+    · right; right; right; exact h
+  | map =>
+    simp only
+    rcases hd.2 with ((h | h) | h) | h
+    · right; left; exact h
+    · right; right; left; exact h
+    · left; exact h
+    · right; right; right; exact h
+
+mutual
+theorem wtAs_allHandled (T : Tables) (hT : typesHandled T = true) :
+    ∀ (v : Val) (k : Kind) (sty : Nat), posOK T k sty → wtAs T k sty v = true → allHandled T v = true
+  | .scalar _ _, _, _, _, _ => rfl
+  | .nil, _, _, _, _ => rfl
+  | .tnil _, _, _, _, h => by simp [wtAs] at h
+  | .node sh a ty keys kids, k, sty, hp, h => by
+    simp only [wtAs, Bool.and_eq_true, beq_iff_eq] at h
+    obtain ⟨⟨hk, hshape⟩, hkids⟩ := h
+    have hcc : (T.decl ty).copyCase = true := by
+      cases k with
+      | iface =>
+        simp only at hk
+        have hm : T.decl ty ∈ T.types := by
+          rcases decl_mem_or_dflt T ty with hm | hd
+          · exact hm
+          · rw [hd] at hk; cases hk
+        have hd := (List.all_eq_true.1 hT) _ hm
+        simp only [Bool.and_eq_true, Bool.or_eq_true, Bool.not_eq_true'] at hd
+        rcases hd.1.1 with h0 | h0
+        · rw [hk] at h0; cases h0
+        · exact h0
+      | value => simp at hk
+      | «opaque» => simp at hk
+      | ptr => simp only [beq_iff_eq] at hk; rcases hp with h0 | h0 | h0 | h0 <;> first | cases h0 | (rw [hk]; exact h0)
+      | slice => simp only [beq_iff_eq] at hk; rcases hp with h0 | h0 | h0 | h0 <;> first | cases h0 | (rw [hk]; exact h0)
+      | map => simp only [beq_iff_eq] at hk; rcases hp with h0 | h0 | h0 | h0 <;> first | cases h0 | (rw [hk]; exact h0)
+      | ptrScalar => simp only [beq_iff_eq] at hk; rcases hp with h0 | h0 | h0 | h0 <;> first | cases h0 | (rw [hk]; exact h0)
+      | sliceScalar => simp only [beq_iff_eq] at hk; rcases hp with h0 | h0 | h0 | h0 <;> first | cases h0 | (rw [hk]; exact h0)
+      | kinds => simp only [beq_iff_eq] at hk; rcases hp with h0 | h0 | h0 | h0 <;> first | cases h0 | (rw [hk]; exact h0)
+    simp only [allHandled, Tables.handles, hcc, hshape, beq_self_eq_true, Bool.and_self, Bool.true_and]
+    exact wtKids_allHandled T hT sh ty (decl_mem_of_copyCase T ty hcc) kids 0 hkids
+theorem wtKids_allHandled (T : Tables) (hT : typesHandled T = true) (sh : Shape) (ty : Nat)
+    (hm : T.decl ty ∈ T.types) :
+    ∀ (ks : List Val) (i : Nat), wtKids T sh ty i ks = true → allHandledL T ks = true
+  | [], _, _ => rfl
+  | x :: xs, i, h => by
+    simp only [wtKids, Bool.and_eq_true] at h
+    simp only [allHandledL, Bool.and_eq_true]
+    exact ⟨wtAs_allHandled T hT x _ _ (kidKind_posOK T hT sh ty hm i) h.1,
+      wtKids_allHandled T hT sh ty hm xs (i + 1) h.2⟩
+end
+
+/-- every value that is well-typed against the schema is built from types `Copy` handles -/
+theorem schema_typed_allHandled (T : Tables) (hT : typesHandled T = true) (v : Val) (h : wellTyped T v = true) :
+    allHandled T v = true := wtAs_allHandled T hT v .iface 0 (Or.inl rfl) h
+
 /-! ### branch trees: a covering table enters a superset -/
 
 theorem labelsL_append {α : Type} (A B : List (Tree α)) : labelsL (A ++ B) = labelsL A ++ labelsL B := by
